@@ -18,7 +18,7 @@ RULE = ('case = one generated FGG spec (non-recursive, linear, non-linear, mixed
         'evaluations = specs; non-trivial = some reference gradient entry is non-zero and the spec has >= 2 factors; distinct = spec hashes')
 ASSUMPTIONS = ['reference gradient: autograd through K unrolled dense Kleene steps, K doubled until values and gradients agree to 1e-10; otherwise declined',
                'library run with tol=1e-12, kmax=10000; gradients compared with rtol 1e-6, atol 1e-8*scale',
-               'Log semiring: derivative w.r.t. finite log-weights only; output cotangent supported on finite entries of log Z',
+               'Log semiring: derivative w.r.t. finite log-weights only; output cotangent supported on finite entries of log Z', 'output cotangents are random with positive (even cases) or mixed-sign / negative (odd cases) coefficients',
                'no infinite weights']
 CLASSES = ('nonrec', 'linear', 'nonlinear', 'mixed')
 
@@ -66,6 +66,8 @@ def reference(spec, cot_seed):
     else:
         g = torch.Generator().manual_seed(cot_seed)
         cot = torch.rand(shape, generator=g, dtype=torch.float64) + 0.25
+        if cot_seed % 2:          # any linear functional: mixed-sign / negative coefficients too
+            cot = cot * torch.where(torch.rand(shape, generator=g) < 0.5, -1.0, 1.0).to(torch.float64) if shape else -cot
 
     def run(K, log):
         leaves = {}
